@@ -483,7 +483,11 @@ theorem step_files (w : World) (wf : WorldWF w) (op : Op) : (step w op).1.files 
   | save slot md path => exact step_files_save w wf slot md path
   | saverSave slot src mo path => exact step_files_saverSave w wf slot src mo path
   | construct slot kind nv nh na ud rand => simp [step, absStep, specWrite]
-  | mkModule mslot k nv nh na rand => simp [step, absStep, specWrite]
+  | mkModule mslot k nv nh na zw rand => simp [step, absStep, specWrite]
+  | initModule mslot zw rand =>
+    have : absStep w w.files (.initModule mslot zw rand) = w.files := by simp [absStep, specWrite]
+    rw [this]; simp only [step]; repeat' split
+    all_goals rfl
   | mkMeta mdslot entries => simp [step, absStep, specWrite]
   | constructFrom slot kind mslot ud =>
     have : absStep w w.files (.constructFrom slot kind mslot ud) = w.files := by simp [absStep, specWrite]
